@@ -130,7 +130,7 @@ impl Monitor for C07 {
                         obs.hit("limit:result-asked-twice");
                         let wants = [&prefix, &all, &all];
                         for (i, (t, w)) in tables.iter().zip(wants.iter()).enumerate() {
-                            if !identical_rows(t, w) { push("repeated-result-differs", format!("{:?} LIMIT {}: result no. {} of one engine (prefix of {} lines, then all {}, then again) has {} rows, a fresh batch run over the same lines {}", base.sql, n, i + 1, cut, base.lines.len(), t.rows.len(), w.rows.len()), &mut vs); break; }
+                            if !identical_rows_keys_by_value(&p.stmt, t, w) { push("repeated-result-differs", format!("{:?} LIMIT {}: result no. {} of one engine (prefix of {} lines, then all {}, then again) has {} rows, a fresh batch run over the same lines {}", base.sql, n, i + 1, cut, base.lines.len(), t.rows.len(), w.rows.len()), &mut vs); break; }
                         }
                     }
                 }
